@@ -7,6 +7,7 @@ package main
 
 import (
 	"bytes"
+	"encoding/json"
 	"flag"
 	"fmt"
 	"io/ioutil"
@@ -244,7 +245,8 @@ func runCLI(bin string, sc *scriptCase, dir string) {
 	if err := ioutil.WriteFile(f, []byte(fullText(sc)), 0644); err != nil {
 		panic(err)
 	}
-	c := exec.Command(bin, "-n", "-p", f)
+	c := exec.Command(bin, "-n", "-p", "c.cfg")
+	c.Dir = dir
 	var out, errb bytes.Buffer
 	c.Stdout = &out
 	c.Stderr = &errb
@@ -286,18 +288,51 @@ func coqStrList(l []string) string {
 	return vh.List(it)
 }
 
+// Names (actors, roles, actions, moods) come from a small vocabulary; each is
+// defined once per file (`Definition w3 := [x62; x6f; x62].`) and referred to
+// by its identifier: the time coqc needs is proportional to the size of the
+// terms, and the names are most of it.
+var vocab = map[string]string{}
+var vocabOrder []string
+
+func W(s string) string {
+	if id, ok := vocab[s]; ok {
+		return id
+	}
+	id := fmt.Sprintf("w%d", len(vocab))
+	vocab[s] = id
+	vocabOrder = append(vocabOrder, s)
+	return id
+}
+
+func vocabDefs() string {
+	var b strings.Builder
+	for _, s := range vocabOrder {
+		fmt.Fprintf(&b, "Definition %s : list byte := %s.\n", vocab[s], vh.Str(s))
+	}
+	return b.String()
+}
+
+func coqWList(l []string) string {
+	var it []string
+	for _, s := range l {
+		it = append(it, W(s))
+	}
+	return vh.List(it)
+}
+
 func coqClause(c *clause) string {
 	switch c.Kind {
 	case "entails":
-		t := "(TActor " + vh.Str(c.Target) + ")"
+		t := "(TActor " + W(c.Target) + ")"
 		if c.Every {
-			t = "(TEvery " + vh.Str(c.Target) + ")"
+			t = "(TEvery " + W(c.Target) + ")"
 		}
-		return fmt.Sprintf("CEntails x%02x %s %s", c.Char[0], t, coqStrList(c.Actions))
+		return fmt.Sprintf("CEntails x%02x %s %s", c.Char[0], t, coqWList(c.Actions))
 	case "mstart":
-		return fmt.Sprintf("CMoodStart x%02x %s", c.Char[0], vh.Str(c.Mood))
+		return fmt.Sprintf("CMoodStart x%02x %s", c.Char[0], W(c.Mood))
 	case "mend":
-		return fmt.Sprintf("CMoodEnd x%02x %s", c.Char[0], vh.Str(c.Mood))
+		return fmt.Sprintf("CMoodEnd x%02x %s", c.Char[0], W(c.Mood))
 	case "story":
 		return "CStoryline " + vh.Str(c.Text)
 	case "edit":
@@ -315,9 +350,9 @@ func coqPlay(p [][]cmd.VerifScene, nilActor [][][]bool) string {
 			for li, l := range s.Lines {
 				var sts []string
 				for _, st := range l.Steps {
-					sts = append(sts, fmt.Sprintf("mkStep %s %s %s", vh.Bool(st.Typ == 1), vh.Str(st.Action), vh.Bool(st.FailOk)))
+					sts = append(sts, fmt.Sprintf("mkStep %s %s %s", vh.Bool(st.Typ == 1), W(st.Action), vh.Bool(st.FailOk)))
 				}
-				ls = append(ls, fmt.Sprintf("mkLine %s %s", vh.Option(!nilActor[ai][si][li], vh.Str(l.Actor)), vh.List(sts)))
+				ls = append(ls, fmt.Sprintf("mkLine %s %s", vh.Option(!nilActor[ai][si][li], W(l.Actor)), vh.List(sts)))
 			}
 			scs = append(scs, fmt.Sprintf("mkScene %s %s", vh.Z(s.WaitUntilNs), vh.List(ls)))
 		}
@@ -337,9 +372,9 @@ func coqEvents(evs []pevent) string {
 		case "meanwhile":
 			it = append(it, fmt.Sprintf("PMeanwhile %d", e.I))
 		case "do":
-			it = append(it, fmt.Sprintf("PDo %d %s %s %s", e.I, vh.Str(e.Actor), vh.Str(e.Action), vh.Bool(e.FailOk)))
+			it = append(it, fmt.Sprintf("PDo %d %s %s %s", e.I, W(e.Actor), W(e.Action), vh.Bool(e.FailOk)))
 		case "mood":
-			it = append(it, fmt.Sprintf("PMood %d %s", e.I, vh.Str(e.Mood)))
+			it = append(it, fmt.Sprintf("PMood %d %s", e.I, W(e.Mood)))
 		}
 	}
 	return vh.List(it)
@@ -348,9 +383,20 @@ func coqEvents(evs []pevent) string {
 func coqCase(sc *scriptCase) string {
 	var cast []string
 	for _, e := range expandCast(sc.Cast) {
-		cast = append(cast, "("+vh.Str(e[0])+", "+vh.Str(e[1])+")")
+		cast = append(cast, "("+W(e[0])+", "+W(e[1])+")")
 	}
-	var cmds, edits, trace []string
+	var cmds, edits, trace, lets []string
+	storyId := map[string]string{}
+	story := func(l []string) string {
+		k := strings.Join(l, " ")
+		if id, ok := storyId[k]; ok {
+			return id
+		}
+		id := fmt.Sprintf("t%d", len(storyId))
+		storyId[k] = id
+		lets = append(lets, fmt.Sprintf("let %s := %s in ", id, coqStrList(l)))
+		return id
+	}
 	for i := range sc.Clauses {
 		c := &sc.Clauses[i]
 		if c.Kind == "tempo" {
@@ -382,15 +428,15 @@ func coqCase(sc *scriptCase) string {
 		case st.Err != "":
 			trace = append(trace, fmt.Sprintf("Err %d%%N", errCode(st.Err)))
 		default:
-			trace = append(trace, "Ok "+coqStrList(st.StoryLine))
+			trace = append(trace, "Ok "+story(st.StoryLine))
 		}
 	}
 	final := "None"
 	if sc.Res.FullErr == "" && sc.Res.FullPanic == "" && sc.PrintErr == "" {
-		final = fmt.Sprintf("(Some (mkFinal %s %s %s))", coqStrList(sc.Res.StoryLine),
+		final = fmt.Sprintf("(Some (mkFinal %s %s %s))", story(sc.Res.StoryLine),
 			coqPlay(sc.Res.Play, sc.Res.NilActor), coqEvents(sc.Events))
 	}
-	return fmt.Sprintf("mkCase %s %s %s %s %s %s", vh.List(cast), vh.Z(sc.TempoNs), vh.List(cmds), vh.List(edits), vh.List(trace), final)
+	return strings.Join(lets, "") + fmt.Sprintf("mkCase %s %s %s %s %s %s", vh.List(cast), vh.Z(sc.TempoNs), vh.List(cmds), vh.List(edits), vh.List(trace), final)
 }
 
 // ---------------------------------------------------------------------------
@@ -654,6 +700,55 @@ func doPair(a1, a2 string) pairCase {
 	return pairCase{a1, a2, r, p}
 }
 
+// jcase is a script case in cases.json / in a replay file: Cast, Clauses and
+// TempoNs are enough to run it again.
+type jcase struct {
+	Stream   string
+	Cast     []castEntry
+	Clauses  []clause
+	Text     string
+	TempoNs  int64
+	FullErr  string
+	Panic    string
+	Story    []string
+	PrintErr string
+}
+
+// replay runs the single case of a replay file again and writes it as
+// cases_0.v / pairs.v.
+func replay(file, out string) {
+	data, err := ioutil.ReadFile(file)
+	if err != nil {
+		panic(err)
+	}
+	var r struct {
+		Input     *jcase
+		PairInput *pairCase
+	}
+	if err := json.Unmarshal(data, &r); err != nil {
+		panic(err)
+	}
+	pairs := "[]"
+	var names []string
+	var sb strings.Builder
+	if r.PairInput != nil {
+		c := doPair(r.PairInput.A1, r.PairInput.A2)
+		pairs = vh.List([]string{fmt.Sprintf("(%s, %s, %s)", vh.Str(c.A1), vh.Str(c.A2), vh.Option(c.Panic == "", vh.Str(c.Obs)))})
+		fmt.Printf("combineActs(%q, %q) = %q %s\n", c.A1, c.A2, c.Obs, c.Panic)
+	}
+	if r.Input != nil {
+		sc := &scriptCase{Stream: "replay", Cast: r.Input.Cast, Clauses: r.Input.Clauses, TempoNs: r.Input.TempoNs}
+		runScript(sc)
+		fmt.Printf("%s\nerror: %q panic: %q\nstoryline: %q\n%s", fullText(sc), sc.Res.FullErr, sc.Res.FullPanic, sc.Res.StoryLine, sc.Res.Printed)
+		body := coqCase(sc)
+		fmt.Fprintf(&sb, "Definition c0 : c06_case := %s.\n", body)
+		names = append(names, "c0")
+	}
+	sb.WriteString("Definition script_cases : list c06_case := " + vh.List(names) + ".\n")
+	vh.WriteFile(out, "cases_0.v", vocabDefs()+sb.String())
+	vh.WriteFile(out, "pairs.v", "Definition pair_cases : list pair_case := "+pairs+".\n")
+}
+
 // ---------------------------------------------------------------------------
 
 func main() {
@@ -661,8 +756,13 @@ func main() {
 	tier := flag.String("tier", "quick", "")
 	out := flag.String("out", ".", "")
 	bin := flag.String("bin", "", "the real shakespeare binary (for the -n -p cross-check)")
-	shardSize := flag.Int("shard", 2500, "script cases per cases_<i>.v")
+	shardSize := flag.Int("shard", 320, "script cases per cases_<i>.v")
+	replayFile := flag.String("replay", "", "run the case of this replay file only")
 	flag.Parse()
+	if *replayFile != "" {
+		replay(*replayFile, *out)
+		return
+	}
 	// parseScript prints "warning: there is no actor playing role ..." to
 	// os.Stderr for the role-without-actors clauses the generator produces.
 	if dn, err := os.OpenFile(os.DevNull, os.O_WRONLY, 0); err == nil {
@@ -818,31 +918,30 @@ func main() {
 	}
 	vh.WriteFile(*out, "pairs.v", "Definition pair_cases : list pair_case := "+vh.ListNL(items)+".\n")
 	nshards := 0
+	var shardTexts []string
 	for lo := 0; lo < len(scripts); lo += *shardSize {
 		hi := lo + *shardSize
 		if hi > len(scripts) {
 			hi = len(scripts)
 		}
-		items = nil
-		for _, sc := range scripts[lo:hi] {
-			items = append(items, coqCase(sc))
+		var sb strings.Builder
+		var names []string
+		for i, sc := range scripts[lo:hi] {
+			n := fmt.Sprintf("c%d", i)
+			names = append(names, n)
+			fmt.Fprintf(&sb, "Definition %s : c06_case := %s.\n", n, coqCase(sc))
 		}
-		vh.WriteFile(*out, fmt.Sprintf("cases_%d.v", nshards), "Definition script_cases : list c06_case := "+vh.ListNL(items)+".\n")
+		sb.WriteString("Definition script_cases : list c06_case := " + vh.List(names) + ".\n")
+		shardTexts = append(shardTexts, sb.String())
 		nshards++
 	}
-
-	type jcase struct {
-		Stream   string
-		Text     string
-		TempoNs  int64
-		FullErr  string
-		Panic    string
-		Story    []string
-		PrintErr string
+	for i, t := range shardTexts {
+		vh.WriteFile(*out, fmt.Sprintf("cases_%d.v", i), vocabDefs()+t)
 	}
+
 	var js []jcase
 	for _, sc := range scripts {
-		js = append(js, jcase{sc.Stream, fullText(sc), sc.TempoNs, sc.Res.FullErr, sc.Res.FullPanic,
+		js = append(js, jcase{sc.Stream, sc.Cast, sc.Clauses, fullText(sc), sc.TempoNs, sc.Res.FullErr, sc.Res.FullPanic,
 			sc.Res.StoryLine, sc.PrintErr})
 	}
 	vh.WriteJSON(*out, "cases.json", map[string]interface{}{"pairs": pairs, "scripts": js, "shard": *shardSize})
